@@ -10,28 +10,52 @@ import traceback
 from . import core
 
 
+def claimed_props() -> list[str]:
+    import json
+
+    m = json.loads((core.VERIF / "MANIFEST.json").read_text())
+    return [c["property_id"] for c in m["checks"]]
+
+
 def setup() -> int:
-    ok, log = core.make(None, timeout=3400)
-    print(log[-4000:])
+    """build what the claimed checks need: per-property setup() hooks run the
+    translators first (gen/*.v), then the Coq cone of every claimed property"""
+    for d in ("evidence", "replays", ".cache/numba", ".cache/mpl", "coq/gen"):
+        (core.VERIF / d).mkdir(parents=True, exist_ok=True)
+    props = claimed_props()
+    mods = {}
+    for pid in props:
+        try:
+            mods[pid] = importlib.import_module(f"props.{pid.lower()}")
+        except ModuleNotFoundError:
+            print(f"setup: no module for claimed property {pid}")
+            return 2
+    rc = 0
+    for pid, mod in mods.items():
+        if hasattr(mod, "pre_build"):
+            try:
+                mod.pre_build()
+            except Exception:  # noqa: BLE001
+                traceback.print_exc()
+                rc = 2
+    targets = []
+    for pid, mod in mods.items():
+        targets.append(f"theories/Properties/{pid}.vo")
+        targets += list(getattr(mod, "COQ_TARGETS", []))
+    ok, log = core.make(sorted(set(targets)), timeout=3400)
+    print(log[-3000:])
     if not ok:
         print("setup: Coq build FAILED")
         return 2
-    probs = core.audit_sources()
-    for p in probs:
-        print("audit:", p)
-    for d in ("evidence", "replays", ".cache/numba", ".cache/mpl"):
-        (core.VERIF / d).mkdir(parents=True, exist_ok=True)
-    # optional per-property setup hooks (e.g. building OCaml drivers, warming numba caches)
-    for f in sorted((core.VERIF / "harness" / "props").glob("c[0-9][0-9].py")):
-        mod = importlib.import_module(f"props.{f.stem}")
+    for pid, mod in mods.items():
         if hasattr(mod, "setup"):
             try:
                 mod.setup()
             except Exception:  # noqa: BLE001
                 traceback.print_exc()
-                return 2
-    print("setup: ok")
-    return 2 if probs else 0
+                rc = 2
+    print("setup:", "ok" if rc == 0 else "FAILED")
+    return rc
 
 
 def main(argv=None) -> int:
